@@ -225,11 +225,19 @@ pub(crate) fn pow(lhs: &Value, rhs: &Value) -> TeraResult<Value> {
 
             let val = match (left, right) {
                 (Number::Integer(a), Number::Integer(b)) => {
-                    let exp = u32::try_from(b).map_err(|_| {
-                        Error::message(format!(
-                            "Exponent {b} is out of range for integer ** (must fit in u32)"
-                        ))
-                    })?;
+                    let exp = match u32::try_from(b) {
+                        Ok(exp) => exp,
+                        // With an exponent that large only 0, 1 and -1 have a power that fits
+                        Err(_) => {
+                            return match a {
+                                0 | 1 => Ok(Value::from(a)),
+                                -1 => Ok(Value::from(if b % 2 == 0 { 1i128 } else { -1i128 })),
+                                _ => Err(Error::message(format!(
+                                    "Exponent {b} is out of range for integer ** (must fit in u32)"
+                                ))),
+                            };
+                        }
+                    };
                     match a.checked_pow(exp) {
                         Some(val) => Value::from(val),
                         None => {
